@@ -75,22 +75,26 @@ func checkID(id, kind string, sigil byte) (err error) {
 		)
 		return
 	}
+	return checkIDLength(id, kind)
+}
+
+// checkIDLength enforces the ID length limits: more than maxIDLength code points is
+// an error, more than maxIDLength bytes only is an error that is persistable.
+func checkIDLength(id, kind string) error {
 	if l := utf8.RuneCountInString(id); l > maxIDLength {
-		err = EventValidationError{
+		return EventValidationError{
 			Code:    EventValidationTooLarge,
 			Message: fmt.Sprintf("gomatrixserverlib: %s ID is too long, length %d > maximum %d", kind, l, maxIDLength),
 		}
-		return
 	}
 	if l := len(id); l > maxIDLength {
-		err = EventValidationError{
+		return EventValidationError{
 			Code:        EventValidationTooLarge,
 			Message:     fmt.Sprintf("gomatrixserverlib: %s ID is too long, length %d bytes > maximum %d bytes", kind, l, maxIDLength),
 			Persistable: true,
 		}
-		return
 	}
-	return
+	return nil
 }
 
 // SplitID splits a matrix ID into a local part and a server name.
